@@ -12,6 +12,7 @@ import (
 	_ "verifharness/c17"
 	_ "verifharness/cond"
 	_ "verifharness/ops"
+	_ "verifharness/reads"
 	_ "verifharness/txn"
 )
 
